@@ -381,6 +381,11 @@ def cases(tier, seed):
 
 
 META = {
+    'count': 'symbolic',
+    'rule': ('evaluations = SMT queries issued (validity + branch feasibility); an obligation is one (path, assertion) pair of a symbolic run of '
+             'the real parser on one generated file; distinct_nontrivial counts distinct (obligation, goal) pairs whose goal is a formula over the '
+             'symbolic numerals of the file (not a constant): these are decided by z3, most of them already by its simplifier because the parsed value '
+             'and the reference value normalise to the same term; obligations about concrete fields (class, frame, text, sky positions) are evaluated directly'),
     'functions_encoded': ['regions.io.ds9.read._parse_ds9 / _parse_raw_data / _split_lines / _split_semicolon / _parse_shape_line / _parse_metadata / '
                           '_define_raw_metadata / _parse_pixel_coord / _parse_sky_coord / _parse_angle / _parse_size / _parse_shape_params / '
                           '_define_region_params / _make_region', 'regions.io.ds9.meta._split_raw_metadata / _translate_ds9_to_visual',
